@@ -86,6 +86,7 @@ theorem KStep.read_stable {e e' : Entry} {lab : KLabel} (ts : TS) (h : KStep e l
     rw [marker_writes]
     exact firstVisible_putWrite_nondata _ _ _ (Or.inl rfl) hg
   | locks k T acts ha hf => rw [(KStep.locks k T acts ha hf).locks_writes]
+  | touch k T l l' hl hT hT' hop => rfl
   | unlock acts ha => rw [(KStep.unlock acts ha).unlock_writes]
   | gc k sp =>
     rw [gcWrites_eq, foldl_entryAct_delWrites, foldl_delWrite, applyDels_gcDropped _ _ _ hi.desc]
@@ -153,6 +154,7 @@ theorem KStep.record_stays {e e' : Entry} {lab : KLabel} (w : Write) (h : KStep 
   | rollback l k T hl hT => rw [rollbackLock_writes]; exact mem_putWrite_of_ne hw hg
   | marker k T hnl hf => rw [marker_writes]; exact mem_putWrite_of_ne hw hg
   | locks k T acts ha hf => rw [(KStep.locks k T acts ha hf).locks_writes]; exact hw
+  | touch k T l l' hl hT hT' hop => exact hw
   | unlock acts ha => rw [(KStep.unlock acts ha).unlock_writes]; exact hw
   | gc k sp => exact (KStep.gc k sp).gc_keeps_above w hw hg
   | wipe => exact absurd hg id
@@ -164,6 +166,7 @@ def KLabel.txn : KLabel → Option TS
   | .rollback T => some T
   | .marker T => some T
   | .locks T => some T
+  | .touch T => some T
   | _ => none
 
 theorem KStep.fresh_of_txn {e e' : Entry} {lab : KLabel} {T : TS} (h : KStep e lab e') (hi : EInv e)
@@ -182,6 +185,9 @@ theorem KStep.fresh_of_txn {e e' : Entry} {lab : KLabel} {T : TS} (h : KStep e l
   | locks k T' acts ha hf =>
     have : T' = T := by simpa [KLabel.txn] using hl
     subst this; exact hf
+  | touch k T' l l' hlk hT hT' hop =>
+    have : T' = T := by simpa [KLabel.txn] using hl
+    subst this; rw [← hT]; exact hi.lockFresh l hlk
   | unlock acts ha => cases hl
   | gc k sp => cases hl
   | wipe => cases hl
@@ -227,6 +233,7 @@ theorem KStep.uniq {e e' : Entry} {lab : KLabel} (h : KStep e lab e') (hi : EInv
     exact Uniq_putWrite_fresh _ _ hu (by rw [← hT]; exact hi.lockFresh l hl)
   | marker k T hnl hf => rw [marker_writes]; exact Uniq_putWrite_fresh _ _ hu hf
   | locks k T acts ha hf => rw [(KStep.locks k T acts ha hf).locks_writes]; exact hu
+  | touch k T l l' hl hT hT' hop => exact hu
   | unlock acts ha => rw [(KStep.unlock acts ha).unlock_writes]; exact hu
   | gc k sp =>
     rw [gcWrites_eq, foldl_entryAct_delWrites]
